@@ -74,7 +74,7 @@ Proof.
   - apply (IH lo). split; assumption.
 Qed.
 
-(* hence the first/last fix-up never fires on such records *)
+(* hence the merge of sections overlapping the first one never fires on such records *)
 Lemma last_opt_In {A} (l : list A) x : last_opt l = Some x -> In x l.
 Proof.
   unfold last_opt. destruct (rev l) as [|y r] eqn:Hr; [discriminate|]. intros H. inversion H; subst.
@@ -90,6 +90,16 @@ Proof.
   - apply IH. exact Hr.
 Qed.
 
+Lemma merge_pass_none fs fe fa : forall others_rev kept m,
+  Forall (fun x : isec => fe <= fst (fst x)) others_rev ->
+  merge_pass fs fe fa others_rev kept m = (fs, fe, fa, rev others_rev ++ kept, m).
+Proof.
+  induction others_rev as [|[[os oe] oa] r IH]; intros kept m H; [reflexivity|].
+  inversion H; subst. cbn [fst] in *. cbn [merge_pass].
+  replace ((fs <? oe) && (os <? fe)) with false by lia.
+  rewrite IH by assumption. cbn [rev]. rewrite <- app_assoc. reflexivity.
+Qed.
+
 Lemma hulls_ordered_rev_map : forall gs, hulls_ordered gs ->
   forall secs, secs = map (fun g : group => let '(cs, he, ms) := g in (cs, he, rev ms)) (rev gs) ->
   fixup secs = secs.
@@ -101,12 +111,11 @@ Proof.
   rewrite Hgs in Hord. apply ho_app_last in Hord. cbn [fst snd] in Hord.
   cbn [map]. unfold fixup.
   destruct (map _ rest) as [|r1 rest'] eqn:Hm; [reflexivity|].
-  destruct (last_opt (r1 :: rest')) as [[[ls le] la]|] eqn:Hl; [|reflexivity].
-  apply last_opt_In in Hl. rewrite <- Hm in Hl. apply in_map_iff in Hl.
-  destruct Hl as ([[cs1 he1] ms1] & Heq & Hin). inversion Heq; subst.
-  rewrite Forall_forall in Hord. specialize (Hord (ls, le, ms1)). cbn [fst snd] in Hord.
-  assert (fe <= ls) by (apply Hord; apply -> in_rev; exact Hin).
-  replace ((fs <? le) && (ls <? fe)) with false by lia. reflexivity.
+  cbn [merge_loop]. rewrite merge_pass_none.
+  - rewrite app_nil_r, rev_involutive. reflexivity.
+  - apply Forall_rev. rewrite <- Hm. apply Forall_forall. intros x Hx. apply in_map_iff in Hx.
+    destruct Hx as ([[cs1 he1] ms1] & <- & Hin). cbn [fst].
+    rewrite Forall_forall in Hord. apply (Hord (cs1, he1, ms1)). apply -> in_rev. exact Hin.
 Qed.
 
 Lemma regions_are_sections N areas : Forall (wf N) areas -> regions N areas = sections N areas.
@@ -243,6 +252,43 @@ Qed.
 Lemma lstart1 p : lstart [p] = ps p. Proof. reflexivity. Qed.
 Lemma lend1 p : lend [p] = pe p. Proof. reflexivity. Qed.
 
+Lemma existsb_overlap_spec N new : ps new < pe new -> forall regs, Forall (simple_reg N) regs ->
+  (existsb (fun ex => overlap [new] (rloc ex)) regs = true <-> exists ex, In ex regs /\ shares_base [new] (rloc ex)).
+Proof.
+  intros Hn regs Hs. rewrite existsb_exists. rewrite Forall_forall in Hs.
+  split; intros (ex & Hin & H); exists ex; (split; [exact Hin|]);
+    destruct (Hs ex Hin) as (q & Hq & ? & ? & ?); rewrite Hq in *.
+  - apply simple_shares; [lia|lia|]. apply simple_overlap; assumption.
+  - apply simple_overlap; [lia|lia|]. apply simple_shares in H; [exact H|lia|lia].
+Qed.
+
+Lemma add_index_spec N new : ps new < pe new -> forall regs i,
+  Forall (simple_reg N) regs -> sorted_disjoint regs ->
+  (forall ex, In ex regs -> overlap [new] (rloc ex) = false) ->
+  exists k, add_index [new] regs i = (i + k)%nat /\ (k <= length regs)%nat /\
+            Forall (fun a => lend (rloc a) <= ps new) (firstn k regs) /\
+            Forall (fun b => pe new <= lstart (rloc b)) (skipn k regs).
+Proof.
+  intros Hn. induction regs as [|ex regs IH]; intros i Hs Hsd Hno.
+  - exists 0%nat. cbn. rewrite Nat.add_0_r. repeat split; auto.
+  - inversion Hs as [|? ? (q & Hq & Hq0 & Hq1 & Hq2) Hs']; subst. destruct Hsd as [Hall Hsd'].
+    assert (Ho : overlap [new] [q] = false) by (rewrite <- Hq; apply Hno; left; reflexivity).
+    cbn [add_index]. rewrite Hq.
+    destruct (simple_coll_lt new q Hn Hq1 Ho) as [Hlt Hge].
+    destruct (coll_lt [new] [q]) eqn:Hc.
+    + (* the new region lies before ex, hence before every later region *)
+      assert (Hbefore : pe new <= ps q) by lia.
+      exists 0%nat. rewrite Nat.add_0_r. cbn [firstn skipn length]. repeat split; [lia|constructor|].
+      constructor; [rewrite Hq, lstart1; lia|].
+      rewrite Forall_forall in Hall, Hs'. apply Forall_forall. intros b Hb.
+      specialize (Hall b Hb). destruct (Hs' b Hb) as (q' & Hq' & ? & ? & ?).
+      rewrite Hq' in *. rewrite Hq in Hall. rewrite lend1, lstart1 in *. lia.
+    + specialize (Hge eq_refl).
+      destruct (IH (S i) Hs' Hsd') as (k & Hk & Hlen & Hf & Hsk); [intros ex' Hin; apply Hno; right; exact Hin|].
+      exists (S k). rewrite Hk. cbn [firstn skipn length]. repeat split; [lia|lia| |assumption].
+      constructor; [rewrite Hq, lend1; lia|assumption].
+Qed.
+
 Lemma add_scan_spec N new : ps new < pe new -> forall regs i,
   Forall (simple_reg N) regs -> sorted_disjoint regs ->
   ((exists ex, In ex regs /\ shares_base [new] (rloc ex)) -> add_scan [new] regs i = Err E_Value) /\
@@ -251,36 +297,16 @@ Lemma add_scan_spec N new : ps new < pe new -> forall regs i,
              Forall (fun a => lend (rloc a) <= ps new) (firstn k regs) /\
              Forall (fun b => pe new <= lstart (rloc b)) (skipn k regs)).
 Proof.
-  intros Hn. induction regs as [|ex regs IH]; intros i Hs Hsd.
-  - split; [intros (ex & [] & _)|]. intros _. exists 0%nat. cbn. rewrite Nat.add_0_r. repeat split; auto.
-  - inversion Hs as [|? ? (q & Hq & Hq0 & Hq1 & Hq2) Hs']; subst. destruct Hsd as [Hall Hsd'].
-    cbn [add_scan]. rewrite Hq.
-    destruct (overlap [new] [q]) eqn:Ho.
-    + split; [reflexivity|]. intros Hno. exfalso. apply Hno. exists ex. split; [left; reflexivity|].
-      rewrite Hq. apply simple_shares; [lia|lia|]. apply simple_overlap; assumption.
-    + assert (Hnsh : ~ shares_base [new] [q]).
-      { intros H. apply simple_shares in H; [|lia|lia]. apply (simple_overlap new q) in H; [congruence|lia|lia]. }
-      destruct (simple_coll_lt new q Hn Hq1 Ho) as [Hlt Hge].
-      destruct (coll_lt [new] [q]) eqn:Hc.
-      * (* the new region lies before ex, hence before every later region *)
-        assert (Hbefore : pe new <= ps q) by lia.
-        split.
-        -- intros (ex' & [<-|Hin] & Hsh); [rewrite Hq in Hsh; contradiction|].
-           exfalso. rewrite Forall_forall in Hall, Hs'. specialize (Hall ex' Hin).
-           destruct (Hs' ex' Hin) as (q' & Hq' & ? & ? & ?). rewrite Hq' in Hsh, Hall. rewrite Hq in Hall.
-           apply simple_shares in Hsh; [|lia|lia]. rewrite lend1, lstart1 in Hall. lia.
-        -- intros _. exists 0%nat. rewrite Nat.add_0_r. cbn [firstn skipn length]. repeat split; [lia|constructor|].
-           constructor; [rewrite Hq, lstart1; lia|].
-           rewrite Forall_forall in Hall, Hs'. apply Forall_forall. intros b Hb.
-           specialize (Hall b Hb). destruct (Hs' b Hb) as (q' & Hq' & ? & ? & ?).
-           rewrite Hq' in *. rewrite Hq in Hall. rewrite lend1, lstart1 in *. lia.
-      * specialize (Hge eq_refl).
-        destruct (IH (S i) Hs' Hsd') as [IH1 IH2]. split.
-        -- intros (ex' & [<-|Hin] & Hsh); [rewrite Hq in Hsh; contradiction|]. apply IH1. exists ex'. split; assumption.
-        -- intros Hno. destruct IH2 as (k & Hk & Hlen & Hf & Hsk).
-           { intros (ex' & Hin & Hsh). apply Hno. exists ex'. split; [right; assumption|assumption]. }
-           exists (S k). rewrite Hk. cbn [firstn skipn length]. repeat split; [f_equal; lia|lia| |assumption].
-           constructor; [rewrite Hq, lend1; lia|assumption].
+  intros Hn regs i Hs Hsd. unfold add_scan.
+  pose proof (existsb_overlap_spec N new Hn regs Hs) as Hex.
+  destruct (existsb (fun ex => overlap [new] (rloc ex)) regs) eqn:E.
+  - split; [reflexivity|]. intros Hno. exfalso. apply Hno. apply Hex. reflexivity.
+  - split; [intros H; apply Hex in H; discriminate|]. intros _.
+    destruct (add_index_spec N new Hn regs i Hs Hsd) as (k & Hk & Hrest).
+    + intros ex Hin. destruct (overlap [new] (rloc ex)) eqn:Ho; [|reflexivity].
+      assert (existsb (fun ex => overlap [new] (rloc ex)) regs = true) by (apply existsb_exists; exists ex; split; assumption).
+      congruence.
+    + exists k. rewrite Hk. split; [reflexivity|exact Hrest].
 Qed.
 
 Lemma sorted_disjoint_app_inv : forall l1 l2, sorted_disjoint (l1 ++ l2) -> sorted_disjoint l1 /\ sorted_disjoint l2 /\
@@ -434,15 +460,53 @@ Proof.
   - intros g r Hr. destruct (H3 g r Hr) as (reg & Hin & Hid & _). apply in_map_iff. exists reg. split; assumption.
 Qed.
 
-Lemma add_region_ring_counterexample : exists N regs r,
-  (exists ex, In ex regs /\ shares_base (rloc r) (rloc ex)) /\ exists regs', add_region N regs r = Ok regs'.
+(* add_region on ANY record, origin-spanning regions included: refused iff a base is shared *)
+Definition wf_reg (r : cregion) : Prop := Forall L.wf_part (rloc r).
+Fixpoint pw_disjoint (l : list cregion) : Prop :=
+  match l with
+  | [] => True
+  | a :: t => Forall (fun b => ~ shares_base (rloc a) (rloc b)) t /\ pw_disjoint t
+  end.
+
+Lemma add_index_bounds new : forall regs i, (i <= add_index new regs i <= i + length regs)%nat.
 Proof.
-  pose (mk := fun l => mkCR l [] [mkCA 0 0 l]).
-  exists 1000, [mk [mkPart 50 150 1]; mk [mkPart 400 500 1]; mk [mkPart 800 950 1]], (mk [mkPart 900 1000 1; mkPart 0 20 1]).
-  split.
-  - exists (mk [mkPart 800 950 1]). split; [right; right; left; reflexivity|].
-    exists 920. split; eexists; (split; [left; reflexivity|cbn; lia]).
-  - eexists. vm_compute. reflexivity.
+  induction regs as [|ex regs IH]; intros i; cbn [add_index length]; [lia|].
+  destruct (coll_lt new (rloc ex)); [lia|]. specialize (IH (S i)). lia.
+Qed.
+
+Lemma pw_disjoint_insert r : forall i l, pw_disjoint l -> (forall ex, In ex l -> ~ shares_base (rloc r) (rloc ex)) ->
+  pw_disjoint (insert_at i r l).
+Proof.
+  unfold insert_at. induction i as [|i IH]; intros l Hl Hno.
+  - cbn [firstn skipn app pw_disjoint]. split; [apply Forall_forall; exact Hno|exact Hl].
+  - destruct l as [|x l].
+    + cbn. split; [constructor|exact I].
+    + cbn [firstn skipn app pw_disjoint] in *. destruct Hl as [Hx Hl]. split.
+      * rewrite <- (firstn_skipn i l) in Hx. apply Forall_app in Hx. destruct Hx as [H1 H2].
+        apply Forall_app. split; [exact H1|]. constructor; [|exact H2].
+        intros (y & Hy1 & Hy2). apply (Hno x (or_introl eq_refl)). exists y. split; assumption.
+      * apply IH; [exact Hl|]. intros ex Hin. apply Hno. right. exact Hin.
+Qed.
+
+Lemma add_region_ring N regs r : Forall wf_reg regs -> wf_reg r -> 0 <= lstart (rloc r) -> lend (rloc r) <= N ->
+  ((exists ex, In ex regs /\ shares_base (rloc r) (rloc ex)) -> add_region N regs r = Err E_Value) /\
+  (~ (exists ex, In ex regs /\ shares_base (rloc r) (rloc ex)) ->
+   exists i, (i <= length regs)%nat /\ add_region N regs r = Ok (insert_at i r regs) /\
+             (pw_disjoint regs -> pw_disjoint (insert_at i r regs))).
+Proof.
+  intros Hs Hr H0 HN. unfold add_region, add_scan.
+  replace ((lstart (rloc r) <? 0) || (N <? lend (rloc r))) with false by lia.
+  assert (Hex : existsb (fun ex => overlap (rloc r) (rloc ex)) regs = true <->
+                exists ex, In ex regs /\ shares_base (rloc r) (rloc ex)).
+  { rewrite existsb_exists. rewrite Forall_forall in Hs.
+    split; intros (ex & Hin & H); exists ex; (split; [exact Hin|]);
+      apply (L.overlap_spec (rloc r) (rloc ex) Hr (Hs ex Hin)); exact H. }
+  destruct (existsb (fun ex => overlap (rloc r) (rloc ex)) regs) eqn:E.
+  - split; [reflexivity|]. intros Hno. exfalso. apply Hno. apply Hex. reflexivity.
+  - split; [intros H; apply Hex in H; discriminate|]. intros Hno.
+    exists (add_index (rloc r) regs 0). cbn [bind]. split; [pose proof (add_index_bounds (rloc r) regs 0); lia|].
+    split; [reflexivity|]. intros Hpw. apply pw_disjoint_insert; [exact Hpw|].
+    intros ex Hin Hsh. apply Hno. exists ex. split; assumption.
 Qed.
 
 (* ====================================================================================
@@ -617,6 +681,89 @@ Qed.
 Lemma simple_area_wf N a : simple_area N a -> wf N (area_of a).
 Proof. intros (p & Hp & H0 & H1 & H2). unfold area_of, wf. rewrite Hp. cbn. lia. Qed.
 
+(* ---------- the merge of the sections overlapping the first one ---------- *)
+Lemma cmerge_pass_none w floc fareas : forall others_rev kept m,
+  Forall (fun sec : csec => overlap floc (fst sec) = false) others_rev ->
+  cmerge_pass w floc fareas others_rev kept m = Ok (floc, fareas, rev others_rev ++ kept, m).
+Proof.
+  induction others_rev as [|[oloc oareas] r IH]; intros kept m H; [reflexivity|].
+  inversion H; subst. cbn [fst] in *. cbn [cmerge_pass]. rewrite H2. cbn [negb].
+  rewrite IH by assumption. cbn [rev]. rewrite <- app_assoc. reflexivity.
+Qed.
+
+(* a pass that reports `merged = False` changed nothing and met no section overlapping the first *)
+Lemma cmerge_pass_post w : forall others_rev floc fareas kept m l a kept',
+  cmerge_pass w floc fareas others_rev kept m = Ok (l, a, kept', false) ->
+  l = floc /\ a = fareas /\ kept' = rev others_rev ++ kept /\ m = false /\
+  Forall (fun sec : csec => overlap floc (fst sec) = false) others_rev.
+Proof.
+  induction others_rev as [|[oloc oareas] r IH]; intros floc fareas kept m l a kept' H; cbn [cmerge_pass] in H.
+  - inversion H; subst. repeat split; constructor.
+  - destruct (overlap floc oloc) eqn:Ho; cbn [negb] in H.
+    + destruct (connect_locations [floc; oloc] w) as [l'|k]; cbn [bind] in H; [|discriminate].
+      apply IH in H. destruct H as (_ & _ & _ & Hm & _). discriminate.
+    + apply IH in H. destruct H as (-> & -> & -> & -> & Hf). repeat split.
+      * cbn [rev]. rewrite <- app_assoc. reflexivity.
+      * constructor; [exact Ho|exact Hf].
+Qed.
+
+(* a pass never lengthens the list, and a pass that merged shortened it *)
+Lemma cmerge_pass_len w : forall others_rev floc fareas kept m l a kept' m',
+  cmerge_pass w floc fareas others_rev kept m = Ok (l, a, kept', m') ->
+  (length kept' <= length others_rev + length kept)%nat /\
+  (m = false -> m' = true -> (length kept' < length others_rev + length kept)%nat).
+Proof.
+  induction others_rev as [|[oloc oareas] r IH]; intros floc fareas kept m l a kept' m' H; cbn [cmerge_pass] in H.
+  - inversion H; subst. cbn [length]. split; [lia|]. intros -> H'; discriminate.
+  - destruct (overlap floc oloc) eqn:Ho; cbn [negb] in H.
+    + destruct (connect_locations [floc; oloc] w) as [l'|k]; cbn [bind] in H; [|discriminate].
+      apply IH in H. destruct H as [H1 _]. cbn [length]. split; [lia|]. intros _ _. lia.
+    + apply IH in H. destruct H as [H1 H2]. cbn [length] in *. split; [lia|]. intros Hm Hm'. specialize (H2 Hm Hm'). lia.
+Qed.
+
+Definition first_absorbs (secs : list csec) : Prop :=
+  match secs with
+  | [] => True
+  | (floc, _) :: rest => Forall (fun sec : csec => overlap floc (fst sec) = false) rest
+  end.
+
+Lemma cmerge_loop_post w : forall fuel secs secs', cmerge_loop fuel w secs = Ok secs' -> first_absorbs secs'.
+Proof.
+  induction fuel as [|f IH]; intros secs secs' H; cbn [cmerge_loop] in H; [discriminate|].
+  destruct secs as [|[floc fareas] rest]; [inversion H; exact I|].
+  destruct (cmerge_pass w floc fareas (rev rest) [] false) as [[[[l a] kept] merged]|k] eqn:Hp; cbn [bind] in H; [|discriminate].
+  destruct merged; [apply IH in H; exact H|].
+  inversion H; subst. apply cmerge_pass_post in Hp. destruct Hp as (-> & -> & -> & _ & Hf).
+  cbn [first_absorbs]. rewrite app_nil_r, rev_involutive. apply Forall_rev in Hf. rewrite rev_involutive in Hf. exact Hf.
+Qed.
+
+Lemma cfixup_post w secs secs' : cfixup w secs = Ok secs' -> first_absorbs secs'.
+Proof.
+  unfold cfixup. destruct secs as [|[floc fareas] [|r1 rest]]; intros H.
+  - inversion H. exact I.
+  - inversion H. constructor.
+  - eapply cmerge_loop_post. exact H.
+Qed.
+
+(* the fuel of the while loop never runs out: any two fuels above the number of sections give the same result *)
+Lemma cmerge_loop_fuel w : forall f1 f2 secs, (length secs < f1)%nat -> (length secs < f2)%nat ->
+  cmerge_loop f1 w secs = cmerge_loop f2 w secs.
+Proof.
+  induction f1 as [|f1 IH]; intros f2 secs H1 H2; [lia|]. destruct f2 as [|f2]; [lia|].
+  cbn [cmerge_loop]. destruct secs as [|[floc fareas] rest]; [reflexivity|].
+  destruct (cmerge_pass w floc fareas (rev rest) [] false) as [[[[l a] kept] merged]|k] eqn:Hp; cbn [bind]; [|reflexivity].
+  destruct merged; [|reflexivity].
+  apply cmerge_pass_len in Hp. destruct Hp as [_ Hlt]. specialize (Hlt eq_refl eq_refl).
+  rewrite rev_length in Hlt. cbn [length] in *. apply IH; cbn [length]; lia.
+Qed.
+
+Lemma cfixup_fuel w secs extra : (1 < length secs)%nat ->
+  cfixup w secs = cmerge_loop (S (length secs) + extra) w secs.
+Proof.
+  intros H. unfold cfixup. destruct secs as [|x [|y rest]]; cbn [length] in H; try lia.
+  apply cmerge_loop_fuel; lia.
+Qed.
+
 Lemma ring_sections_linear N circular cands subs : Forall (simple_area N) (cands ++ subs) ->
   exists secs, csections (wrap_of N circular) cands subs = Ok secs /\
                map lin_of_sec secs = regions N (map area_of (cands ++ subs)) /\ Forall sec_simple secs /\
@@ -644,11 +791,11 @@ Proof.
     assert (Hm' : map lin_of_sec final = map lin_of_grp (rev (sweep N 0 (map area_of (a :: r))))) by (rewrite Hsw; exact Hm).
     clear Hm. rename Hm' into Hm.
     specialize (Hfs (Forall_nil _)).
-    (* the first/last merge does not fire *)
+    (* no later section overlaps the first one: the merge loop stops after one pass *)
     assert (Hfix : cfixup (wrap_of N circular) final = Ok final).
     { unfold cfixup. destruct final as [|[floc fareas] [|r1 rest]]; try reflexivity.
-      destruct (last_opt (r1 :: rest)) as [[lloc lareas]|] eqn:Hl; [|reflexivity].
-      apply last_opt_In in Hl.
+      cbn [cmerge_loop]. rewrite cmerge_pass_none; [cbn [bind]; rewrite app_nil_r, rev_involutive; reflexivity|].
+      apply Forall_rev. apply Forall_forall. intros [lloc lareas] Hl. cbn [fst].
       assert (Hord : hulls_ordered (sweep N 0 (map area_of (a :: r)))).
       { rewrite Hsort. destruct (sections_spec N _ Hwf) as (_ & _ & _ & lo & Hinv). eapply inv_hulls_ordered. exact Hinv. }
       destruct (rev (sweep N 0 (map area_of (a :: r)))) as [|g0 grest] eqn:Hrev; [discriminate|].
@@ -663,23 +810,32 @@ Proof.
       cbn [fst] in Hqf, Hql. subst floc lloc.
       destruct g0 as [[c0 h0] m0], x as [[cx hx] mx]. unfold lin_of_sec, lin_of_grp in Hg0, Hxeq. cbn [fst snd] in *.
       inversion Hg0; inversion Hxeq; subst.
-      replace (overlap [qf] [ql]) with false; [reflexivity|].
-      symmetry. destruct (overlap [qf] [ql]) eqn:Ho; [|reflexivity]. apply simple_overlap in Ho; [|lia|lia].
+      destruct (overlap [qf] [ql]) eqn:Ho; [|reflexivity]. apply simple_overlap in Ho; [|lia|lia].
       rewrite lend1, lstart1 in Hle. lia. }
     exists final. split; [exact Hfix|]. split; [|split; [exact Hfs|]].
     + rewrite Hm. reflexivity.
     + eapply (csweep_members (simple_area N)); [exact Hr|constructor; [exact Hasimple|constructor]|constructor|exact Hf].
 Qed.
 
+(* the layout of the repaired finding origin_spanning_area: sub-regions 29..42, 90..99, 60..24 (origin-spanning) and
+   59..77 on a ring of 100 give the two components {60..24, 90..99, 59..77} and {29..42} *)
+Lemma ring_f12_layout :
+  let sub i l := mkCA i 0 l in
+  let a0 := sub 0 [mkPart 29 42 1] in let a1 := sub 1 [mkPart 90 99 1] in
+  let a2 := sub 2 [mkPart 60 100 1; mkPart 0 24 1] in let a3 := sub 3 [mkPart 59 77 1] in
+  record_regions 100 true [a0; a1; a2; a3]
+  = Ok [mkCR [mkPart 59 100 1; mkPart 0 24 1] [] [a2; a1; a3]; mkCR [mkPart 29 42 1] [] [a0]].
+Proof. vm_compute. reflexivity. Qed.
+
+(* what is still false with an origin-spanning area (origin_spanning_long_arc): (a) an area that shares no base with
+   any other area ends up in their region, which is the whole record; (b) the whole-record location of such a
+   region overlaps the region of another component and creation raises *)
 Lemma ring_counterexamples :
-  (exists N supply, record_regions N true supply = Err E_Value) /\
   (exists N supply reg a b, record_regions N true supply = Ok [reg] /\ In a (rsubs reg) /\ In b (rsubs reg) /\
-     forall c, In c supply -> cid c <> cid b -> ~ shares_base (cloc b) (cloc c)).
+     forall c, In c supply -> cid c <> cid b -> ~ shares_base (cloc b) (cloc c)) /\
+  (exists N supply, record_regions N true supply = Err E_Value).
 Proof.
   split.
-  - exists 100, [mkCA 0 0 [mkPart 29 42 1]; mkCA 1 0 [mkPart 90 99 1]; mkCA 2 0 [mkPart 60 100 1; mkPart 0 24 1];
-                 mkCA 3 0 [mkPart 59 77 1]].
-    vm_compute. reflexivity.
   - exists 1000, [mkCA 0 0 [mkPart 953 1000 1; mkPart 0 499 1]; mkCA 1 0 [mkPart 495 499 1]; mkCA 2 0 [mkPart 497 508 1];
                   mkCA 3 0 [mkPart 532 572 1]].
     eexists. exists (mkCA 0 0 [mkPart 953 1000 1; mkPart 0 499 1]), (mkCA 3 0 [mkPart 532 572 1]).
@@ -688,6 +844,9 @@ Proof.
     destruct Hp as [<-|[]]. cbn [ps pe] in Hx.
     destruct Hc as [<-|[<-|[<-|[<-|[]]]]]; cbn [cloc cid] in *; try congruence;
       repeat (destruct Hq as [<-|Hq]; [cbn [ps pe] in Hy; lia|]); destruct Hq.
+  - exists 300, [mkCA 0 0 [mkPart 128 161 1]; mkCA 1 1 [mkPart 158 198 1]; mkCA 2 0 [mkPart 189 300 1; mkPart 0 20 1];
+                 mkCA 3 1 [mkPart 113 117 1]].
+    vm_compute. reflexivity.
 Qed.
 
 (* ---------- Region.__init__ and add_region on these sections: one region per section ---------- *)
